@@ -30,9 +30,9 @@ M = {
         ("definite assignment starts from the entry set (least instead of greatest fixpoint)", _an,
          "        return self.all_vars, self.maybe_ass_before_entry", "        return self.ass_before_entry, self.maybe_ass_before_entry", "R-C09.4"),
         ("backward worklist re-queues successors instead of predecessors", _an,
-         "                queue.update(dict.fromkeys(bb.predecessors))", "                queue.update(dict.fromkeys(bb.successors))", "R-C09.1"),
+         "                queue.update(dict.fromkeys(bb.predecessors))", "                queue.update(dict.fromkeys(bb.successors))", "R-C09.7"),
         ("backward worklist forgets dummy predecessors", _an,
-         "                    queue.update(dict.fromkeys(bb.dummy_predecessors))", "                    pass", "R-C09.1"),
+         "                    queue.update(dict.fromkeys(bb.dummy_predecessors))", "                    pass", "R-C09.7"),
         ("maybe-assigned does not include this block's assignments", _an,
          "            maybe_ass_before | stats.assigned.keys(),", "            maybe_ass_before,", "R-C09.2"),
         ("benign: liveness join spelled with update()", _an,
